@@ -115,10 +115,17 @@ def r_ledger(root):
         for c in closure_calls(h.body, defs, depth=2):
             if callee_name(c) == "remove_models_from_repositories":
                 arg = ast.unparse(c.args[1]) if len(c.args) > 1 else ""
+                f2 = enclosing_func(c)
+                if f2 is not None and f2.name == "_remove_all_affected_models_in_construction":
+                    # cleanup of an abandoned load: only the models still under construction (marker filter) may be evicted
+                    ax = ast.unparse(_sem.info(f2).expand(c.args[1], at=c)) if len(c.args) > 1 else ""
+                    if "_tx_reference_resolver" not in ax:
+                        out.append(Finding("C18", "C18.b", M, qualname(c), ast.unparse(c), "models cached by earlier loads are removed too (the removed set is not filtered by the construction marker): a failed load evicts finished models from the global repository and the next load re-parses them", witness="global_repository=True: load base; a load that imports base fails; load base again"))
+                    continue
                 if arg not in ("models", "models_to_be_removed"):
                     out.append(Finding("C18", "C18.a", M, qualname(c), ast.unparse(c), "not all models of the failed attempt are removed"))
                 if arg == "models_to_be_removed":
-                    f2 = enclosing_func(c); src = [s for s in own_nodes(f2) if isinstance(s, ast.Assign) and ast.unparse(s.targets[0]) == "models_to_be_removed"]
+                    src = [s for s in own_nodes(f2) if isinstance(s, ast.Assign) and ast.unparse(s.targets[0]) == "models_to_be_removed"]
                     if not src or "_tx_reference_resolver" not in ast.unparse(src[0].value): out.append(Finding("C18", "C18.b", M, qualname(c), ast.unparse(src[0]) if src else "", "models cached by earlier loads are removed too (no construction-marker filter)"))
     mm = load(root, "textx/metamodel.py")
     for q in ("TextXMetaModel.internal_model_from_file", "TextXMetaModel.model_from_str"):
